@@ -49,3 +49,177 @@ def jobs():
                          opts={"direct_calls_ok": True, "val_protocols": {"__await__": ret_aw}, "impl_root": "contracts/adapters", "extra_modules": ("canary_sync",),
                                "under_contract": [("asynctools", "sync")]}))
     return J
+
+
+def _pull(ip, it):
+    return (yield from ip.pull(it))
+
+
+def _aclose(ip, it):
+    m = ip.getattr(it, "aclose" if ip.side == "impl" else "close")
+    r = yield from ip.call(m, [], {})
+    if ip.side == "impl":
+        r = yield from ip.await_(r)
+    return r
+
+
+class BorrowProtocol:
+    """C07: histories over {next(B), next(U) by the owner, close(B), close(iter(B)), tool(B), re-borrow}"""
+    def available(self, H):
+        ops = ["next(B)", "next(U)", "close(B)", "close(iter(B))", "tool(B)"]
+        if "B2" not in H:
+            ops.append("reborrow")
+        else:
+            ops += ["next(B2)", "close(B2)"]
+        return ops
+
+    def perform(self, ip, H, op):
+        U = ip.env.sources["a"]
+        B = H["self"]
+        if op == "next(B)":
+            return (yield from _pull(ip, B))
+        if op == "next(B2)":
+            return (yield from _pull(ip, H["B2"]))
+        if op == "next(U)":
+            return (yield from ip.pull(U, sync=(ip.side == "ref")))
+        if op == "close(B)":
+            yield from _aclose(ip, B)
+            return None
+        if op == "close(B2)":
+            yield from _aclose(ip, H["B2"])
+            return None
+        if op == "close(iter(B))":
+            if ip.side == "impl":
+                it = yield from ip.call(ip.getattr(B, "__aiter__"), [], {})
+            else:
+                it = yield from ip.call(ip.getattr(B, "__iter__"), [], {})
+            yield from _aclose(ip, it)
+            return None
+        if op == "reborrow":
+            if ip.side == "impl":
+                fn = ip.frames[0].fn.module.lookup("borrow") if ip.frames else None
+            H["B2"] = yield from ip.call(H["mk"], [B], {})
+            return None
+        if op == "tool(B)":
+            # a library tool that closes its inputs takes one item from the handle and is closed
+            if ip.side == "impl":
+                t = yield from ip.call(H["tool"], [B], {})
+                try:
+                    v = yield from ip.pull(t)
+                finally:
+                    yield from t.aclose()
+                return v[1]
+            try:
+                v = yield from _pull(ip, B)
+            finally:
+                yield from _aclose(ip, B)
+            return v
+        raise KeyError(op)
+
+    def expect(self, verifier, op):
+        U = verifier.env.sources["a"]
+        return [("underlying-not-closed", U.closes == 0, f"the underlying iterator was closed through the borrowed handle (after {op})")]
+
+
+class ScopedProtocol:
+    """C08: enter the scope, use the handle (also inside a nested scope and through a closing tool), leave"""
+    def available(self, H):
+        if "S" not in H:
+            return ["enter"] if "done" not in H else (["next(S0)"] if "S0" in H and "after" not in H else [])
+        ops = ["next(S)", "close(S)", "tool(S)", "exit:none", "exit:raise"]
+        if "inner" not in H and "nested" not in H:
+            ops.append("enter-nested")
+        if "inner" in H:
+            ops = ["next(S2)", "close(S2)", "next(S)", "exit-nested"]
+        return ops
+
+    def perform(self, ip, H, op):
+        impl = ip.side == "impl"
+
+        def cm_call(cm, name, args):
+            m = ip.getattr(cm, ("__a" if impl else "__") + name + "__")
+            r = yield from ip.call(m, list(args), {})
+            if impl:
+                r = yield from ip.await_(r)
+            return r
+        if op == "enter":
+            H["S"] = yield from cm_call(H["self"], "enter", [])
+            return None
+        if op in ("next(S)", "next(S2)", "next(S0)"):
+            return (yield from _pull(ip, H[op[5:-1]]))
+        if op in ("close(S)", "close(S2)"):
+            yield from _aclose(ip, H[op[6:-1]])
+            return None
+        if op == "tool(S)":
+            S = H["S"]
+            if impl:
+                t = yield from ip.call(H["tool"], [S], {})
+                try:
+                    v = yield from ip.pull(t)
+                finally:
+                    yield from t.aclose()
+                return v[1]
+            try:
+                v = yield from _pull(ip, S)
+            finally:
+                yield from _aclose(ip, S)
+            return v
+        if op == "enter-nested":
+            H["inner"] = yield from ip.call(H["mk"], [H["S"]], {})
+            H["S2"] = yield from cm_call(H["inner"], "enter", [])
+            H["nested"] = "1"
+            return None
+        if op == "exit-nested":
+            yield from cm_call(H["inner"], "exit", [None, None, None])
+            del H["inner"]
+            del H["S2"]
+            return None
+        if op.startswith("exit:"):
+            if op.endswith("raise"):
+                env = ip.env
+                if "block" not in env.block_exc:
+                    env.block_exc["block"] = ExcVal("Cancelled", ident=("block",), origin="env")
+                e = env.block_exc["block"]
+                args = [ExcClass(e.cls), e, Sentinel("traceback")]
+            else:
+                args = [None, None, None]
+            r = yield from cm_call(H["self"], "exit", args)
+            H["S0"] = H.pop("S")
+            H["done"] = "1"
+            from pyvc.interp import to_bool, mk_bool
+            b = to_bool(ip.ctx, r)
+            return ("suppress", b if isinstance(b, bool) else mk_bool(b))
+        raise KeyError(op)
+
+    def expect(self, verifier, op):
+        U = verifier.env.sources["a"]
+        if op.startswith("exit:"):
+            return [("closed-exactly-once-at-exit", U.closes == 1, f"leaving the outermost scope closed the underlying iterator {U.closes} times")]
+        if op == "next(S0)":
+            return [("closed-exactly-once-at-exit", U.closes == 1, "the underlying iterator was closed again after the scope")]
+        return [("not-closed-inside-block", U.closes == 0, f"the underlying iterator was closed inside the block (after {op})")]
+
+
+def _borrow_jobs():
+    AT, RA = "asynctools", "ref_asynctools"
+    out = []
+    for kind in ("gen", "class"):
+        def mk(ctx, env, kind=kind):
+            s = env.source("a", has_aclose=True, kind=kind)
+            return dict(iargs=[s], rargs=[s])
+        def pre(verifier, impl_i, ref_i):
+            pass
+        out.append(Job(f"borrow[{kind}]", (AT, "borrow"), (RA, "borrow"), mk, kind="protocol", props=("C07",), faults=False, closes=False, release=False,
+                       opts={"protocol": BorrowProtocol(), "handles": {"mk": ((AT, "borrow"), (RA, "borrow")), "tool": (("builtins", "enumerate"), None)},
+                             "under_contract": [(AT, "borrow"), (AT, "_BorrowedAsyncIterator")]}))
+        out.append(Job(f"scoped_iter[{kind}]", (AT, "scoped_iter"), (RA, "scoped_iter"), mk, kind="protocol", props=("C08", "C18"), faults=False, closes=False, release=False,
+                       opts={"protocol": ScopedProtocol(), "handles": {"mk": ((AT, "scoped_iter"), (RA, "scoped_iter")), "tool": (("builtins", "enumerate"), None)},
+                             "under_contract": [(AT, "scoped_iter"), (AT, "_ScopedAsyncIteratorContext"), (AT, "_ScopedAsyncIterator"), (AT, "_BorrowedAsyncIterator")]}))
+    return out
+
+
+_jobsA = jobs
+
+
+def jobs():
+    return _jobsA() + _borrow_jobs()
